@@ -42,6 +42,8 @@ inductive NestEv where
   | addq (depth lid target : Nat) (t : Ms)
   /-- its `cache.async_expire(t)` purged `recs` (non-empty): the two rounds that follow run at `depth` -/
   | purge (depth : Nat) (t : Ms) (recs : List Rec)
+  /-- a service handler of browser `bid`, fired at `depth`, creates browser `newBid` (`Zc/Model/BrowserReentrant.lean`) -/
+  | made (depth bid newBid : Nat)
   deriving Repr
 
 /-- the facts about the code that the generated leaves supply -/
